@@ -8,6 +8,7 @@ from .. import gens, model, printing, rfc
 from ..core import Prop, Violation
 from .c15 import utils_documents, UKEYS
 from .c16 import dump_to_jv
+from .c15 import EDGE_NUMBERS
 from .c17 import sound_and_usable, append_everywhere, edit, EDITS, grow_both
 
 CASE_KEYS = [b"a", b"A", b"key", b"Key", b"KEY", b"b", b"B", b"x", b"X", b"ab", b"aB", b"", b"a/b", b"~", b"\xc3\xa9", b"\xff", b"Z", b"z\x80"]
@@ -15,7 +16,9 @@ CASE_KEYS = [b"a", b"A", b"key", b"Key", b"KEY", b"b", b"B", b"x", b"X", b"ab", 
 
 def merge_documents(max_leaves=10, min_leaves=1, nulls=True):
     leaves = [st.just(["t"]), st.just(["f"]), st.integers(-20, 20).map(lambda i: ["N", float(i)]), st.integers(-40, 40).map(lambda i: ["N", i / 8.0]),
-              st.sampled_from([b"", b"x", b"str"]).map(lambda s: ["S", s])]
+              st.sampled_from([b"", b"x", b"str"]).map(lambda s: ["S", s]),
+              # both ends of the double range: values next to each other there differ by less than any absolute tolerance
+              st.sampled_from(EDGE_NUMBERS + [0.0]).map(lambda d: ["N", d])]
     if nulls:
         leaves.append(st.just(["n"]))
     keys = st.one_of(st.sampled_from(CASE_KEYS), st.sampled_from(UKEYS))
@@ -36,7 +39,8 @@ def random_object(rnd, depth, nulls=True, top=True):
             v = ["A", [rnd.choice([["n"], ["N", 1.0], ["O", [[b"k", ["n"]]]], ["O", [[b"name", ["S", b"x"]], [b"id", ["N", 1.0]]]],
                                    ["A", [["O", [[b"key", ["t"]]]]]]]) for _ in range(rnd.randint(0, 3))]]
         else:
-            v = rnd.choice(([["n"]] if nulls else []) + [["t"], ["f"], ["N", float(rnd.randint(-9, 9))], ["N", rnd.randint(-40, 40) / 8.0], ["S", b"s"], ["S", b""]])
+            v = rnd.choice(([["n"]] if nulls else []) + [["t"], ["f"], ["N", float(rnd.randint(-9, 9))], ["N", rnd.randint(-40, 40) / 8.0], ["S", b"s"], ["S", b""],
+                                                          ["N", rnd.choice(EDGE_NUMBERS + [0.0, 0.0])]])
         members.append([k, v])
     return ["O", members]
 
